@@ -214,7 +214,7 @@ def run_write(ctx, arr, fault=None):
     log.fault = fault
     out_kind, map_kind, name_kind, node_kind, pname, url_kind, normalize_paths, texts = arr
     base = {'absolute': '/work/build/', 'relative': 'build/', 'missing': None, 'absolute_prefix_siblings': '/work/dist/',
-            'absolute_prefix_siblings_reversed': '/work/dist-min/'}[name_kind]
+            'absolute_prefix_siblings_reversed': '/work/dist-min/'}.get(name_kind, 'x/')
     out_name = (base + 'out.js') if base is not None else NotImplemented
     map_name = ((base[:-6] if name_kind == 'absolute' else '') + 'maps/out.js.map') if base is not None else NotImplemented
     if name_kind == 'absolute':
@@ -224,9 +224,20 @@ def run_write(ctx, arr, fault=None):
         map_name = '/work/dist.maps/out.js.map'
     if name_kind == 'absolute_prefix_siblings_reversed':
         map_name = '/work/dist/out.js.map'
+    # further layouts: (output, map, source template)
+    more = {'absolute_backslash': ('/work/build/app\\v1.min.js', '/work/build/app\\v1.min.js.map', '/work/src/m\\f%d.js'),
+            'relative_backslash': ('build\\out.js', 'build\\out.js.map', 'src\\f%d.js'),
+            'absolute_map_deeper': ('/work/dist/bundle.js', '/work/dist/maps/v1/bundle.js.map', '/work/lib/f%d.js'),
+            'absolute_map_shallower': ('/work/dist/js/bundle.js', '/work/bundle.js.map', '/work/dist/js/src/f%d.js'),
+            'absolute_odd_characters': ('/work/my build/out (1).js', '/work/my build/maps #1/out (1).js.map',
+                                        '/work/s%%r c/\u30bd\u30fc\u30b9 f%d.js')}
+    if name_kind in more:
+        out_name, map_name = more[name_kind][:2]
     src_names = []
     for i, t in enumerate(texts):
-        if name_kind == 'absolute':
+        if name_kind in more:
+            src_names.append((t, more[name_kind][2] % i))
+        elif name_kind == 'absolute':
             src_names.append((t, '/work/src/f%d.js' % i))
         elif name_kind.startswith('absolute_prefix'):
             src_names.append((t, '/work/dist-src/f%d.js' % i if i % 2 else '/work/dis/f%d.js' % i))
@@ -532,6 +543,8 @@ def arrangements(ctx):
     outs = ['factory', 'open']
     maps = ['none', 'factory', 'open', 'same']
     names = ['absolute', 'relative', 'missing', 'absolute_prefix_siblings', 'absolute_prefix_siblings_reversed']
+    more_names = ['absolute_backslash', 'relative_backslash', 'absolute_map_deeper', 'absolute_map_shallower',
+                  'absolute_odd_characters']
     nodes = ['single', 'list', 'generator', 'several', 'empty']
     printers = ['pretty', 'minify_obfuscate']
     urls = ['default', 'none', 'explicit']
@@ -564,6 +577,15 @@ def arrangements(ctx):
                 k += 1
                 if k % ctx.nshards == ctx.shard:
                     yield ('factory', mk, names_kind, 'single', 'minify_obfuscate', 'default', True, (prog,))
+    # further layouts of the three names (characters that are separators elsewhere, map deeper / shallower than
+    # the output, blanks and non-ASCII), with each way of passing the map stream
+    for nk in more_names:
+        for mk in ('factory', 'open', 'same'):
+            for npaths in (True, False):
+                k += 1
+                if k % ctx.nshards == ctx.shard:
+                    yield ('factory', mk, nk, 'several' if npaths else 'single', 'pretty' if k % 2 else 'minify_obfuscate',
+                           'default', npaths, tuple(PROGRAMS[(k + j) % 5] for j in range(3 if npaths else 1)))
     # the mapping normalisation switched off (the lower-level API with normalize=False is the reference then)
     for j, prog in enumerate(PROGRAMS):
         for mk in ('same', 'factory', 'open'):
